@@ -11,6 +11,8 @@
   R3 (K8) the parser's side of that contract: in `parse`, the prefix is applied to the atom before the infix loop (prefix
           binds tightest, which is what lets `-3*(pi/2)` stay unparenthesised) and parse_prefix is consulted once.
 Not decided: number formatting, evaluation."""
+import re
+
 from qv.props.common import require_fn
 from qv.report import Result
 from qv.synq import find_all, src, walk
@@ -194,6 +196,40 @@ def run(ctx):
     res.site(key, True, {"parse_prefix_calls": len(pp), "prefix_applied_before_infix_loop": bool(pre_apply and loops and pre_apply[0]["ln"] < loops[0]["ln"]), "verdict": "ok" if ok else "VIOLATION"})
     if not ok:
         res.find(key, "%s:%d" % (parse["file"], parse["ln"]), "the Pratt parser no longer applies exactly one optional prefix operator to the atom before the infix loop; the printer's grouping rules (R2) assume it does", "`-%x^2` parses as -(x^2) while the printer wrote it for (-x)^2")
+    # R4 (K8) positional whole numbers fit the lexer's integer token: with trim_floats the real part of a number below
+    #    10^positive_exponent_break is written as a bare digit string, which the lexer reads as Token::Integer(uN);
+    #    10^break must not exceed uN::MAX, or such a number is written as text the lexer rejects
+    from qv.engine import fn_expr_operand as _op
+    key = "K8|positional-integers-fit-lexer"
+    tok = db.adts.get("quil_rs::parser::token::Token")
+    width = None
+    if tok:
+        for v in tok["variants"]:
+            if v["n"] == "Integer" and v["fields"]:
+                m_ = re.match(r"^[ui](\d+)$", db.ty_s(v["fields"][0]["t"]))
+                if m_:
+                    width = int(m_.group(1)) - (1 if db.ty_s(v["fields"][0]["t"]).startswith("i") else 0)
+    brk = trim = None
+    for g in db.fns:
+        if g.path.startswith("quil_rs::expression::FORMAT_REAL_OPTIONS::{closure"):
+            for bb, t, c in g.calls():
+                if c and c.get("name") == "positive_exponent_break":
+                    a = _op(g, t["args"][1])
+                    consts = []
+                    from qv.engine import walk_expr as _we
+                    _we(a, lambda n: consts.append(n[1]) if n[0] == "const" and isinstance(n[1], int) else None)
+                    brk = consts[0] if consts else None
+                if c and c.get("name") == "trim_floats":
+                    a = _op(g, t["args"][1])
+                    trim = a[1] if a[0] == "const" else None
+    if width is None or brk is None:
+        res.site(key, False, {"verdict": "undecided: Token::Integer width or FORMAT_REAL_OPTIONS not found"})
+        res.undecided.append(key)
+    else:
+        ok = (not trim) or 10 ** brk <= 2 ** width - 1
+        res.site(key, True, {"lexer_integer_bits": width, "positive_exponent_break": brk, "trim_floats": bool(trim), "verdict": "ok" if ok else "VIOLATION"})
+        if not ok:
+            res.find(key, "-", "whole real parts below 1e%d are written as bare digit strings (trim_floats), but the lexer's integer token holds %d bits: numbers between 2^%d and 1e%d print as text that does not lex" % (brk, width, width, brk), "Number(18446744073709552000) prints `18446744073709552000`, which overflows the integer lexer")
     res.explanation = "Composition of the printer's operator/function spellings with the lexer's tags and the parser's arms (syntax-tree tables); grouping discipline of operand printing derived from the parser's single-prefix contract."
     res.assumptions = ["number formatting (lexical) round-trips: decided under C02's literal rule, not here"]
     return res
